@@ -221,7 +221,7 @@ LEVEL_TEXT["C13"] = {
             "vd_ndx; its names iterator is that record's aux chain), definition_names_complete (names = strings at vda_name in chain order), "
             "requirement_absent / definition_absent (no matching record => None, local 0 / global 1 included); chains shown inhabited. The "
             "correspondence runs version models laid out contiguously, interleaved and with gaps against the builder's ground truth, and "
-            "file-level queries against an independent decoder of the three sections (own sh_link string tables).",
+            "file-level queries against an independent decoder of the three sections (own sh_link string tables). From the bytes: EncNeeds / EncDefs / EncDefAuxs describe sections whose bytes are the GNU-ABI encodings of the records (revision word 1, fields in the file's byte order) linked by next/aux offsets in any forward layout; with C02's structure-level round trip they imply the chain predicates, so requirement_on_abi_layout / definition_on_abi_layout / definition_names_on_abi_layout state the completeness results directly on byte layouts.",
     "note": COMMON_NOTE + " That a given builder's output satisfies the chain predicates is checked per generated table by the oracle, not proved for a builder.",
     "technique": "Lean 4 proof (soundness on any bytes; completeness on well-formed chains in any forward layout) + differential correspondence + version-model ground truth and independent file-level decoder",
 }
